@@ -490,8 +490,10 @@ def load_datasets_with_data(
                 raise InputValidationException(
                     f"Invalid datapoint for dataset {dataset_name}. Must be a Pandas Dataframe."
                 )
+            # Validate a copy: _validate_pandas renames, adds and casts columns in place and
+            # the DataFrame belongs to the caller.
             datasets[dataset_name].data = _validate_pandas(
-                datasets[dataset_name].components, data, dataset_name
+                datasets[dataset_name].components, data.copy(), dataset_name
             )
         # Handle empty datasets and scalar values for remaining datasets
         _handle_empty_datasets(datasets)
